@@ -447,24 +447,80 @@ theorem separateUnits_mem (srcLen : Nat) (ambTerm : Str) (nonUnit : List (Nat ×
     r ∈ res ∨ ∃ m ∈ sep, m.2 ≠ [] ∧ r = ⟨m.1, m.2.length, m.2, none⟩ :=
   foldl_sepStep_mem ambTerm nonUnit sep r _ h
 
-theorem applyMask_mem (l : List α) : ∀ (mask : List Bool) (r : α), r ∈ applyMask l mask → r ∈ l := by
-  induction l with
-  | nil => intro mask r h; simp [applyMask] at h
+/-! `_filter_ambiguity` only removes -/
+
+theorem ambFilterStep_go_sublist {α} (proj : α → ER) (f : AmbFilter) (xs : List α) : ∀ (cur l : List α), cur.Sublist l →
+    (xs.foldl (fun cur x =>
+      if f.keyHit (proj x).text then
+        (if !f.valMatches.isEmpty then cur.filter (fun y => !overlapsAny f.valMatches (proj y)) else cur)
+      else cur) cur).Sublist l := by
+  induction xs with
+  | nil => intro cur l h; exact h
   | cons x xs ih =>
-    intro mask r h
-    cases mask with
-    | nil => simpa [applyMask] using h
-    | cons b bs =>
-      simp only [applyMask] at h
-      cases b with
-      | true =>
-        simp only [if_true] at h
-        rcases List.mem_cons.mp h with h | h
-        · exact h ▸ List.mem_cons_self
-        · exact List.mem_cons_of_mem _ (ih bs r h)
-      | false =>
-        simp only [Bool.false_eq_true, if_false] at h
-        exact List.mem_cons_of_mem _ (ih bs r h)
+    intro cur l h
+    simp only [List.foldl_cons]
+    apply ih
+    split
+    · split
+      · exact (List.filter_sublist).trans h
+      · exact h
+    · exact h
+
+theorem ambFilterStep_sublist {α} (proj : α → ER) (f : AmbFilter) (ers : List α) :
+    (ambFilterStep proj f ers).Sublist ers :=
+  ambFilterStep_go_sublist proj f ers ers ers (List.Sublist.refl _)
+
+theorem filterAmbiguity_sublist {α} (proj : α → ER) (srcLen : Nat) (fs : FilterSpec) (ers : List α) :
+    (filterAmbiguity proj srcLen fs ers).Sublist ers := by
+  unfold filterAmbiguity
+  refine (List.filter_sublist).trans ?_
+  have gen : ∀ (fl : List AmbFilter) (cur : List α), cur.Sublist ers →
+      (fl.foldl (fun cur f => ambFilterStep proj f cur) cur).Sublist ers := by
+    intro fl
+    induction fl with
+    | nil => intro cur h; exact h
+    | cons f fl ih => intro cur h; exact ih _ ((ambFilterStep_sublist proj f cur).trans h)
+  exact gen _ _ (List.Sublist.refl _)
+
+/-- closed form of one dictionary entry: if the key regex hits the text of some result of the incoming list and the value
+regex matches somewhere in the source, every result overlapping a value match goes; otherwise nothing changes -/
+theorem ambFilterStep_eq {α} (proj : α → ER) (f : AmbFilter) (ers : List α) :
+    ambFilterStep proj f ers =
+      if ers.any (fun x => f.keyHit (proj x).text) && !f.valMatches.isEmpty then
+        ers.filter (fun y => !overlapsAny f.valMatches (proj y))
+      else ers := by
+  unfold ambFilterStep
+  by_cases hv : f.valMatches.isEmpty = true
+  · have hconst : ∀ (xs cur : List α), xs.foldl (fun (cur : List α) (_ : α) => cur) cur = cur := by
+      intro xs; induction xs with
+      | nil => intro cur; rfl
+      | cons x xs ih => intro cur; simpa [List.foldl_cons] using ih cur
+    simp [hv, hconst]
+  · have hv' : (!f.valMatches.isEmpty) = true := by simpa using hv
+    simp only [hv', Bool.and_true, if_true]
+    have gen : ∀ (xs : List α) (cur : List α),
+        xs.foldl (fun cur x =>
+          if f.keyHit (proj x).text then cur.filter (fun y => !overlapsAny f.valMatches (proj y)) else cur) cur =
+        if xs.any (fun x => f.keyHit (proj x).text) then cur.filter (fun y => !overlapsAny f.valMatches (proj y)) else cur := by
+      intro xs
+      induction xs with
+      | nil => intro cur; simp
+      | cons x xs ih =>
+        intro cur
+        simp only [List.foldl_cons, List.any_cons]
+        by_cases hk : f.keyHit (proj x).text = true
+        · simp only [hk, if_true, Bool.true_or]
+          rw [ih]
+          split <;> simp [List.filter_filter]
+        · simp only [hk, Bool.false_eq_true, if_false, Bool.false_or]
+          exact ih cur
+    exact gen ers ers
+
+theorem tagFlags_map_fst : ∀ (r : List ER) (fl : List Bool), (tagFlags r fl).map (·.1) = r := by
+  intro r
+  induction r with
+  | nil => intro fl; simp [tagFlags]
+  | cons e es ih => intro fl; cases fl <;> simp [tagFlags, ih]
 
 theorem mem_dropLast {l : List α} {r : α} (h : r ∈ l.dropLast) : r ∈ l :=
   (List.dropLast_sublist l).subset h
@@ -641,6 +697,33 @@ theorem sepER_ok (src : Str) (m : Nat × Str) (h : m.1 + m.2.length ≤ src.leng
     ResOK src ⟨m.1, m.2.length, m.2, none⟩ :=
   ⟨h.1, h.2, by intro d hd; simp at hd⟩
 
+theorem filteredTagged_sublist (c : Cfg) (i : Inputs) :
+    ((filteredTagged c i).map (·.1)).Sublist
+      (separateUnits (fixedSource c i).length i.ambTerm
+        (if (loopState c i).nonUnitComputed then i.nonUnit else []) (loopState c i).result i.sep) := by
+  unfold filteredTagged
+  simp only []
+  have h1 := filterAmbiguity_sublist (α := ER × Option Bool) (·.1) (fixedSource c i).length i.filt1
+    (tagFlags (separateUnits (fixedSource c i).length i.ambTerm
+      (if (loopState c i).nonUnitComputed then i.nonUnit else []) (loopState c i).result i.sep) (loopState c i).flags)
+  have e := tagFlags_map_fst (separateUnits (fixedSource c i).length i.ambTerm
+      (if (loopState c i).nonUnitComputed then i.nonUnit else []) (loopState c i).result i.sep) (loopState c i).flags
+  split
+  · have h2 := (filterAmbiguity_sublist (α := ER × Option Bool) (·.1) (fixedSource c i).length i.filt2 _).trans h1
+    have := h2.map (·.1)
+    rwa [e] at this
+  · have := h1.map (·.1)
+    rwa [e] at this
+
+theorem filteredTagged_resOK (c : Cfg) (i : Inputs) (h : WF c i) :
+    ∀ r ∈ (filteredTagged c i).map (·.1), ResOK (fixedSource c i) r := by
+  have hinv := (loopState_inv c i h).2.1
+  intro r hr
+  have hr' := (filteredTagged_sublist c i).subset hr
+  rcases separateUnits_mem _ _ _ _ _ _ hr' with hr' | ⟨m, hm, _, rfl⟩
+  · exact hinv r hr'
+  · exact sepER_ok _ m (h.separate m hm)
+
 /-- every result of `extract` (before `expand_half_suffix`) is well formed -/
 theorem extractPre_resOK (c : Cfg) (i : Inputs) (h : WF c i) (rs : List ER) (he : extractPre c i = some rs) :
     ∀ r ∈ rs, ResOK (fixedSource c i) r := by
@@ -648,30 +731,12 @@ theorem extractPre_resOK (c : Cfg) (i : Inputs) (h : WF c i) (rs : List ER) (he 
   unfold extractPre at he
   split at he
   · simp only [Option.some.injEq] at he; subst he; intro r hr; simp at hr
-  · simp only [] at he
-    split at he
-    · -- separate units, filters, select
-      have hsep : ∀ nu, ∀ r ∈ separateUnits (fixedSource c i).length i.ambTerm nu (loopState c i).result i.sep,
-          ResOK (fixedSource c i) r := by
-        intro nu r hr
-        rcases separateUnits_mem _ _ _ _ _ _ hr with hr | ⟨m, hm, _, rfl⟩
-        · exact hinv r hr
-        · exact sepER_ok _ m (h.separate m hm)
-      generalize (if (loopState c i).nonUnitComputed = true then i.nonUnit else []) = nu at he
-      have hm1 : ∀ r ∈ applyMask (separateUnits (fixedSource c i).length i.ambTerm nu (loopState c i).result i.sep) i.mask1,
-          ResOK (fixedSource c i) r := fun r hr => hsep nu r (applyMask_mem _ _ _ hr)
-      have hm2 : ∀ r ∈ (if c.isDimension = true then
-            applyMask (applyMask (separateUnits (fixedSource c i).length i.ambTerm nu (loopState c i).result i.sep) i.mask1) i.mask2
-          else applyMask (separateUnits (fixedSource c i).length i.ambTerm nu (loopState c i).result i.sep) i.mask1),
-          ResOK (fixedSource c i) r := by
-        intro r hr
-        split at hr
-        · exact hm1 r (applyMask_mem _ _ _ hr)
-        · exact hm1 r hr
+  · split at he
+    · simp only [] at he
       split at he
       · intro r hr
-        exact hm2 r (selectCandidates_mem _ _ _ _ _ he r hr)
-      · simp only [Option.some.injEq] at he; subst he; exact hm2
+        exact filteredTagged_resOK c i h r (selectCandidates_mem _ _ _ _ _ he r hr)
+      · simp only [Option.some.injEq] at he; subst he; exact filteredTagged_resOK c i h
     · simp only [Option.some.injEq] at he; subst he; exact hinv
 
 theorem expandHalf_no_half (res : List ER) (nums : List Num) (half : List Bool) (h : ∀ b ∈ half, b = false) :
@@ -809,24 +874,6 @@ theorem mergePureNumber_mem (sp : Nat → Bool) (src : Str) (gapOK : Nat → Nat
   · exact Or.inr (pureNumbers_mem sp src gapOK ers x nums 0 h)
 
 /-! ### lengths (the lockstep variant of `unit_is_prefix`) -/
-
-theorem applyMask_length_le {α β} : ∀ (l1 : List α) (l2 : List β) (m : List Bool), l1.length ≤ l2.length →
-    (applyMask l1 m).length ≤ (applyMask l2 m).length := by
-  intro l1
-  induction l1 with
-  | nil => intro l2 m _; simp [applyMask]
-  | cons x xs ih =>
-    intro l2 m h
-    cases l2 with
-    | nil => simp at h
-    | cons y ys =>
-      have h' : xs.length ≤ ys.length := by simpa using h
-      cases m with
-      | nil => simpa [applyMask] using h'
-      | cons b bs =>
-        cases b with
-        | true => simpa [applyMask] using ih ys bs h'
-        | false => simpa [applyMask] using ih ys bs h'
 
 theorem sepStep_length (ambTerm : Str) (nonUnit : List (Nat × Nat)) (acc : List Bool × List ER) (m : Nat × Str) :
     acc.2.length ≤ (sepStep ambTerm nonUnit acc m).2.length := by
